@@ -35,6 +35,8 @@ func init() {
 			c func() (mangos.Socket, error)
 		}{{"pub", pub.NewSocket}, {"xpub", xpub.NewSocket}} {
 			k := k
+			out = append(out, &vexplore.Scenario{Name: fmt.Sprintf("%s-subscribers-hist-D%d", k.n, d+2), Mode: "hist", Reset: kit.ResetGlobals, Body: func() { pubHist(k.c, d+2) },
+				NeedCounters: []string{"pub-delivered", "pub-joined-later", "pub-left", "pub-slow-subscriber"}})
 			out = append(out, &vexplore.Scenario{Name: k.n + "-fanout", Mode: "sched", Bound: b, Reset: kit.ResetGlobals, Body: func() { pubFanout(k.c) }})
 		}
 		return out
@@ -490,6 +492,109 @@ func xsubAll() {
 
 // pubFanout: every connected subscriber is sent every message once, in order, unmodified; a
 // burst not larger than WriteQLen is never dropped even when a subscriber is slow.
+// pubHist: subscribers come and go and one of them may be slow (takes what it is given only on
+// demand) while the publisher sends.  A subscriber that keeps up is sent, exactly once and in send
+// order, every message published while it is connected; a slow one is sent a subsequence of those
+// in order, without duplicates, and never holds the others up; nobody is sent anything published
+// before it connected.
+func pubHist(c func() (mangos.Socket, error), depth int) {
+	s, err := c()
+	if err != nil {
+		kit.Failf("setup", "NewSocket: %v", err)
+	}
+	if err := s.SetOption(mangos.OptionWriteQLen, 1); err != nil {
+		kit.Failf("setup", "WriteQLen: %s", kit.ErrName(err))
+	}
+	ep := vt.Get("pubh")
+	if err := s.Listen("vt://pubh"); err != nil {
+		kit.Failf("setup", "Listen: %s", kit.ErrName(err))
+	}
+	type sub struct {
+		p     *vt.Pipe
+		owed  []string // published while connected
+		slow  bool
+		since int
+	}
+	var subs []*sub
+	nsent := 0
+	check := func() {
+		for i, u := range subs {
+			var got []string
+			for _, sm := range u.p.SentLog() {
+				got = append(got, string(sm.Data))
+			}
+			if !u.slow {
+				if !u.p.Alive() {
+					// it may have left while a message was on its way: a prefix is all that is certain
+					if len(got) > len(u.owed) || fmt.Sprintf("%q", got) != fmt.Sprintf("%q", u.owed[:len(got)]) {
+						kit.Failf("pub-subscriber-wrong", "subscriber %d (gone) was sent %q, published while it was connected: %q", i, got, u.owed)
+					}
+					continue
+				}
+				if fmt.Sprintf("%q", got) != fmt.Sprintf("%q", u.owed) {
+					kit.Failf("pub-subscriber-wrong", "subscriber %d keeps up and was sent %q; published while it was connected: %q", i, got, u.owed)
+				}
+				continue
+			}
+			// slow: an in-order subsequence without duplicates
+			j := 0
+			for _, g := range got {
+				for j < len(u.owed) && u.owed[j] != g {
+					j++
+				}
+				if j == len(u.owed) {
+					kit.Failf("pub-slow-subscriber-wrong", "slow subscriber %d was sent %q, which is not an in-order selection of what was published while it was connected: %q", i, got, u.owed)
+				}
+				j++
+			}
+		}
+	}
+	events := func() []kit.Event {
+		var evs []kit.Event
+		if len(subs) < 3 {
+			evs = append(evs, kit.Event{Name: "connect", Run: func() {
+				subs = append(subs, &sub{p: ep.Connect(), since: nsent})
+				if nsent > 0 {
+					kit.Count("pub-joined-later")
+				}
+			}})
+			evs = append(evs, kit.Event{Name: "connect-slow", Run: func() {
+				p := ep.Connect()
+				p.Hold(true)
+				subs = append(subs, &sub{p: p, slow: true, since: nsent})
+			}})
+		}
+		for i, u := range subs {
+			i, u := i, u
+			if !u.p.Alive() {
+				continue
+			}
+			evs = append(evs, kit.Event{Name: fmt.Sprintf("drop:%d", i), Run: func() { u.p.DropNow(); kit.Count("pub-left") }})
+			if u.slow {
+				evs = append(evs, kit.Event{Name: fmt.Sprintf("take:%d", i), Run: func() { u.p.Take(1); kit.Count("pub-slow-subscriber") }})
+			}
+		}
+		evs = append(evs, kit.Event{Name: "publish", Run: func() {
+			nsent++
+			body := fmt.Sprintf("n%d", nsent)
+			for _, u := range subs {
+				if u.p.Alive() {
+					u.owed = append(u.owed, body)
+				}
+			}
+			cl := kit.Start("Send", func() (interface{}, error) { return nil, s.Send([]byte(body)) })
+			kit.Quiesce()
+			if !cl.Done() || cl.Err != nil {
+				kit.Failf("pub-send-blocked", "Send done=%v %s (a slow subscriber must not hold the publisher up)", cl.Done(), kit.ErrName(cl.Err))
+			}
+			kit.Count("pub-delivered")
+		}})
+		return evs
+	}
+	kit.Hist(depth, events, check)
+	kit.Must("Close", func() { _ = s.Close() })
+}
+
 func pubFanout(c func() (mangos.Socket, error)) {
 	s, err := c()
 	if err != nil {
